@@ -339,6 +339,7 @@ func checkC19(ctx *Ctx, r *Report, tier string) {
 		r.check("K5", f.key, f.pos, f.ok, f.detail)
 	}
 	r.floor("K5", 4)
+	r.expectControl("K5", "verifCtlFarFromCell")
 	r.floor("K1d", 7)
 }
 
@@ -905,7 +906,7 @@ func checkLeafCornerLattice(ctx *Ctx, r *Report) {
 		return
 	}
 	corners = corners[:8]
-	recv := fn.Params[0].Name()
+	recv := paramName(fn, 0)
 	ok := true
 	detail := ""
 	var shape0 [3]string
